@@ -148,6 +148,13 @@ impl Response {
                     self.headers.set().ContentLength(None);
                 }
             }
+            (Content::None, status) => {
+                /* no content and no declared length: tell the client not to wait for a body */
+                if self.headers.ContentLength().is_none()
+                && !matches!(status.code(), 100..=199 | 304) {
+                    self.headers.set().ContentLength("0");
+                }
+            }
             _ => (/* let it go by user's responsibility */)
         }
     }
